@@ -45,7 +45,78 @@ def authFieldStr : AuthField → String
 
 def frpsTest : Str := Str.ofString "frps.test"
 def otherTest : Str := Str.ofString "other.test"
+def localhostN : Str := Str.ofString "localhost"
 def loopback : Str := Str.ofString "127.0.0.1"
+def loopback9 : Str := Str.ofString "127.0.0.9"
+
+/-- DNS SAN kind of the harness's server certificates: 0 none, 1 frps.test, 2 other.test, 3 localhost -/
+def sanDNS : Nat → Option (List Str)
+  | 0 => some [] | 1 => some [frpsTest] | 2 => some [otherTest] | 3 => some [localhostN] | _ => none
+
+/-- IP SAN kind: 0 none, 1 127.0.0.1, 2 127.0.0.9 -/
+def sanIP : Nat → Option (List Str)
+  | 0 => some [] | 1 => some [loopback] | 2 => some [loopback9] | _ => none
+
+/-- `san=<d><i>` (absent = 11) -/
+def wireSan (toks : List String) : Option (List Str × List Str) :=
+  match wireKV toks "san" with
+  | none => some ([frpsTest], [loopback])
+  | some v =>
+    match v.toList with
+    | [d, i] =>
+      match sanDNS (d.toNat - 48), sanIP (i.toNat - 48) with
+      | some a, some b => some (a, b)
+      | _, _ => none
+    | _ => none
+
+/-- `sn=<k>` of a cert op: 0 none, 1 frps.test, 2 other.test, 3 127.0.0.1, 4 127.0.0.9 -/
+def certSN : Nat → Option Str
+  | 0 => some [] | 1 => some frpsTest | 2 => some otherTest | 3 => some loopback | 4 => some loopback9
+  | _ => none
+
+/-! reload rig: proxy configurations as `e<0|1>c<0|1>l<0|1|2>m<0|1>o<0|1>` or `-` -/
+
+def parsePC (name : Nat) (t : String) : Option (Option WireReload.PxCfg) :=
+  if t = "-" then some none
+  else match t.toList with
+    | ['e', e, 'c', c, 'l', l, 'm', m, 'o', o] =>
+      some (some { name := name, enc := e == '1', comp := c == '1', limit := l.toNat - 48
+                 , limitServer := m == '1', other := o.toNat - 48 })
+    | _ => none
+
+def rigCfgs (toks : List String) : Option (List WireReload.PxCfg) :=
+  match (wireKV toks "a").bind (parsePC 0), (wireKV toks "b").bind (parsePC 1) with
+  | some a, some b => some (a.toList ++ b.toList)
+  | _, _ => none
+
+structure Rig where
+  tls : Bool
+  st : WireReload.St
+
+/-- the model's answer for proxy `n` after a step, and the property predicate on the implementation's
+    own answer `r` (`s<status enc>p<seen>`).  With compression and no cipher on a clear transport the
+    marker may or may not survive the compressor: the model takes the observed bit. -/
+def rigOne (rg : Rig) (n : Nat) (r : String) : String × Option Bool :=
+  match WireReload.find rg.st n, WireReload.lookupLast rg.st.cfgs n with
+  | some p, some c =>
+    let seenModel := Wire.payloadClear (WireReload.pathOf rg.tls p)
+    let implSeen : Option Bool :=
+      match r.toList with
+      | ['s', _, 'p', x] => some (x == '1')
+      | _ => none
+    let seen := if p.built.comp && !p.built.enc && !rg.tls then implSeen.getD seenModel else seenModel
+    (s!"s{bit p.cfg.enc}p{bit seen}", implSeen.map (C05.reloadObsOk rg.tls c.enc))
+  | _, _ => ("-", some (r == "-"))
+
+def rigAnswer (rg : Rig) (impl : String) : String × Option Bool :=
+  let ra := (wireResKV impl "a").getD "?"
+  let rb := (wireResKV impl "b").getD "?"
+  let a := rigOne rg 0 ra
+  let b := rigOne rg 1 rb
+  let prop := match a.2, b.2 with
+    | some x, some y => some (x && y)
+    | _, _ => none
+  (s!"up=1;a={a.1};b={b.1}", prop)
 
 /-- control transport of a `cert` op (absent = tcp) -/
 def wireProto (toks : List String) : Option Protocol :=
@@ -58,9 +129,9 @@ def wireProto (toks : List String) : Option Protocol :=
   | some "quic" => some .quic
   | _ => none
 
-def wireStep (st : Unit) (tok : List String) (impl : String) : Unit × Verdict :=
+def wireStep (st : Option Rig) (tok : List String) (impl : String) : Option Rig × Verdict :=
   match tok with
-  | ["reset"] => (st, verdictOf "-" impl)
+  | ["reset"] => (none, verdictOf "-" impl)
   | ["sniff", b, f] =>
     match b.toNat?, f with
     | some b, f =>
@@ -88,9 +159,10 @@ def wireStep (st : Unit) (tok : List String) (impl : String) : Unit × Verdict :
       let dis' := dis != "0"
       let t := clientTlsOf cert ca sn
       let m := s!"en={bit en'};dis={bit dis'};skip={bit t.insecureSkipVerify};sn={hx t.serverName};roots={bit t.hasRootCAs};certs={if t.hasCert then 1 else 0}"
-      -- property: with a CA the client verifies (no skip), against exactly the given name
-      let prop := !ca || (wireResKV impl "skip" == some "0" && wireResKV impl "roots" == some "1" &&
-                          wireResKV impl "sn" == some (hx sn))
+      -- property, as far as fields can show it: with a CA the config has the roots and exactly the
+      -- given name.  Whether verification is really in force (InsecureSkipVerify = false is how the
+      -- code does it — a deviation is a DIFF) is decided by handshakes: ops `ident` and `cert`.
+      let prop := !ca || (wireResKV impl "roots" == some "1" && wireResKV impl "sn" == some (hx sn))
       (st, verdictOf m impl (some prop))
     | _, _, _, _, _ => (st, .bad "clicfg")
   | "auth" :: rest =>
@@ -116,28 +188,66 @@ def wireStep (st : Unit) (tok : List String) (impl : String) : Unit × Verdict :
     | _, _ => (st, .bad "raw")
   | "cert" :: rest =>
     match wireBool rest "force", wireBool rest "sca", wireBool rest "scert", wireBool rest "tls",
-          wireBool rest "custom", wireNat rest "cca", wireNat rest "sn", wireNat rest "ccert",
-          wireProto rest with
-    | some f, some sca, some scert, some tls, some custom, some cca, some sn, some ccert, some pr =>
+          wireBool rest "custom", wireNat rest "cca", (wireNat rest "sn").bind certSN, wireNat rest "ccert",
+          wireProto rest, wireSan rest with
+    | some f, some sca, some scert, some tls, some custom, some cca, some sn, some ccert, some pr, some san =>
       let s : ServerCfg := { force := f, trustedCA := sca, certGiven := scert }
       -- whether the Login carries the right key (absent = yes)
       let tokOk := wireBool rest "tok" != some false
       let c : ClientCfg :=
         { tlsEnable := tls, disableCustomFirstByte := !custom, trustedCA := cca != 0
         , certGiven := ccert != 0, protocol := pr
-        , serverName := if sn = 1 then frpsTest else if sn = 2 then otherTest else []
-        , serverAddr := loopback }
+        , serverName := sn
+        , serverAddr := if wireKV rest "addr" == some "1" then localhostN else loopback }
       let p : Pki :=
-        { srvCertIssuer := some 1, srvCertNames := [frpsTest, loopback], cliRootCA := cca
+        { srvCertIssuer := some 1, srvCertDNS := san.1, srvCertIPs := san.2, cliRootCA := cca
         , cliCertIssuer := if ccert = 0 then none else some ccert, srvClientCA := 1 }
       let up := sessionUpOn s c p
       -- a Login with a wrong key that reaches `handleConnection` is answered by LoginResp{Error}
       let m := if up then (if tokOk then "up=1" else "up=0:loginerr") else "up=0"
       -- property: frps interprets a message (answers with a frame, accepting or not) only for a
-      -- peer the identity / force rules admit on that transport
+      -- peer the identity / force rules admit on that transport; for a verifying client this is
+      -- `interpretedOk_identity`: a session only with a certificate of the trusted CA whose SANs of
+      -- the name's kind contain the (given or defaulted) name
       let interpreted := impl == "up=1" || impl == "up=0:loginerr"
       (st, verdictOf m impl (some (C05.interpretedOk s c p interpreted)))
-    | _, _, _, _, _, _, _, _, _ => (st, .bad "cert")
+    | _, _, _, _, _, _, _, _, _, _ => (st, .bad "cert")
+  | "ident" :: rest =>
+    match wireNat rest "ca", wireBool rest "cert", (wireKV rest "sn").bind unhx, wireNat rest "pca",
+          (wireNat rest "pd").bind sanDNS, (wireNat rest "pi").bind sanIP with
+    | some ca, some cert, some sn, some pca, some dns, some ips =>
+      if !nameInDomain sn || sn.getLast? == some Str.dot then (st, .skip "server name outside the model's name domain")
+      else
+        let p : Pki := { srvCertIssuer := some pca, srvCertDNS := dns, srvCertIPs := ips, cliRootCA := ca }
+        let ct := clientTlsOf cert (ca != 0) sn
+        let acc := serverCertAccepted { force := false, trustedCA := false, certGiven := true } ct p
+        -- property: with a trusted CA the config accepts only a certificate of that CA valid for the name
+        (st, verdictOf s!"acc={bit acc}" impl (some (C05.identOk (ca != 0) sn p (impl == "acc=1"))))
+    | _, _, _, _, _, _ => (st, .bad "ident")
+  | "rstart" :: rest =>
+    match wireBool rest "tls", rigCfgs rest with
+    | some tls, some cfgs =>
+      let rg : Rig := { tls := tls, st := WireReload.start cfgs }
+      let a := rigAnswer rg impl
+      (some rg, verdictOf a.1 impl a.2)
+    | _, _ => (st, .bad "rstart")
+  | "rload" :: rest =>
+    match st with
+    | none => (st, verdictOf "norig" impl)
+    | some rg =>
+      match rigCfgs rest with
+      | some cfgs =>
+        let rg' : Rig := { rg with st := WireReload.step rg.st (.reload cfgs) }
+        let a := rigAnswer rg' impl
+        (some rg', verdictOf a.1 impl a.2)
+      | none => (st, .bad "rload")
+  | ["rconn"] =>
+    match st with
+    | none => (st, verdictOf "norig" impl)
+    | some rg =>
+      let rg' : Rig := { rg with st := WireReload.step rg.st .reconnect }
+      let a := rigAnswer rg' impl
+      (some rg', verdictOf a.1 impl a.2)
   | "wire" :: rest =>
     match wireBool rest "tls", wireBool rest "custom", wireBool rest "enc", wireBool rest "venc",
           wireBool rest "mux", wireBool rest "tok", wireBool rest "ws" with
@@ -173,7 +283,7 @@ def wireStep (st : Unit) (tok : List String) (impl : String) : Unit × Verdict :
     | _, _, _, _, _, _, _ => (st, .bad "wire")
   | _ => (st, .bad "op")
 
-def wire : Engine := { State := Unit, init := (), step := wireStep }
+def wire : Engine := { State := Option Rig, init := none, step := wireStep }
 
 end Engines
 end Frp
